@@ -54,12 +54,12 @@ class C04(Prop):
         for L in ((1, 2, 3) if quick else (1, 2, 3, 4)):
             allseq = list(itertools.product(acts, repeat=L))
             if quick and len(allseq) > 600: allseq = rng.sample(allseq, 600)
-            elif len(allseq) > 12000: allseq = rng.sample(allseq, 12000)
+            elif len(allseq) > 40000: allseq = rng.sample(allseq, 40000)
             for seq in allseq:
                 if not any(op.startswith('c:') for _, op in seq): continue
                 d = rng.choice(deliveries)
                 out.append(pr_case('x%d' % k, [action(sd, op, d if op == 'r' else None) for sd, op in seq], wbs=rng.choice([0, 0, 600]))); k += 1
-        for i in range(300 if quick else 6000):
+        for i in range(300 if quick else 20000):
             n = rng.randint(2, 25)
             a = []
             for _ in range(n):
